@@ -22,7 +22,7 @@
 import AHP.Lemmas.IndexInv
 import AHP.Props.C06
 namespace AHP.C07
-open AHP AHP.Idx
+open AHP AHP.G3 AHP.G3.Idx
 
 def IdxInv (i : Idx) (doc : Node) : Prop := Holds i (creationOrder doc)
 
